@@ -29,7 +29,8 @@ Definition sb_cur_facts : sb_facts := Eval vm_compute in
      sbf_frame_inherit := f_sb_frame_inherit;
      sbf_userfunc_unsafe := f_sb_userfunc_unsafe && f_sb_function_default_unsafe;
      sbf_var_import_checked := f_sb_var_import_checked;
-     sbf_purity := map (fun p => (sb_enc (fst p), fst (snd p) && fst (snd (snd p)))) f_sb_purity |}.
+     sbf_purity := map (fun p => (sb_enc (fst p), fst (snd p) && fst (snd (snd p)))) f_sb_purity;
+     sbf_ctor_global := map sb_enc f_sb_ctor_global |}.
 
 (* every class whose guard carries a further condition, understood or not *)
 Definition sb_cur_guard_conds : list sb_name := Eval vm_compute in map (fun p => sb_enc (fst p)) f_sb_guard_conds.
@@ -53,6 +54,11 @@ Definition sb_cur_raw_reads : list (sb_name * sb_name) := Eval vm_compute in
 Definition sb_cur_purity_raw : list (sb_name * (bool * bool)) := Eval vm_compute in
   map (fun p => (sb_enc (fst p), (fst (snd p), fst (snd (snd p))))) f_sb_purity.
 Definition sb_cur_console_returns_hidden : bool := Eval vm_compute in f_sb_console_returns_hidden.
+
+(* constructor calls: the model's transcription of DefaultObjectFactory (arguments refused unless the type is the one vararg type) *)
+Definition sb_cur_ctor_shape : bool := Eval vm_compute in
+  f_sb_default_factory_checks_args &&
+  match f_sb_vararg_types with [t] => String.eqb t "DateTime" | _ => false end.
 
 (* the analysis' own sanity: its self-test passed (mutating idioms rejected, the pure idioms of the tree accepted), and
    the READ methods of the container classes it relies on are declared const in their headers (all overloads) *)
@@ -89,7 +95,8 @@ Definition sb_pinned_facts : sb_facts :=
      sbf_call_guard := sbf_call_guard sb_cur_facts; sbf_getfield_checked := sbf_getfield_checked sb_cur_facts;
      sbf_ref_get_checked := sbf_ref_get_checked sb_cur_facts; sbf_indexer_noinit := sbf_indexer_noinit sb_cur_facts;
      sbf_frame_inherit := sbf_frame_inherit sb_cur_facts; sbf_userfunc_unsafe := sbf_userfunc_unsafe sb_cur_facts;
-     sbf_var_import_checked := sbf_var_import_checked sb_cur_facts; sbf_purity := sbf_purity sb_cur_facts |}.
+     sbf_var_import_checked := sbf_var_import_checked sb_cur_facts; sbf_purity := sbf_purity sb_cur_facts;
+     sbf_ctor_global := sbf_ctor_global sb_cur_facts |}.
 
 (* the guard table is exactly the expected one: these and only these constructors refuse to run *)
 Definition sb_expected_guarded : list sb_name :=
